@@ -184,6 +184,30 @@ class Program:
                     all(isinstance(t_, ast.Name) for t_ in st.targets[0].elts) and not any(isinstance(v_, ast.Starred) for v_ in st.value.elts):
                 for t_, v_ in zip(st.targets[0].elts, st.value.elts):      # A, B = 1, 2 at module level
                     mod.consts[t_.id] = v_
+            elif isinstance(st, ast.Assign) and len(st.targets) == 1 and isinstance(st.targets[0], (ast.Tuple, ast.List)) and \
+                    all(isinstance(t_, ast.Name) or (isinstance(t_, ast.Starred) and isinstance(t_.value, ast.Name)) for t_ in st.targets[0].elts) and \
+                    sum(isinstance(t_, ast.Starred) for t_ in st.targets[0].elts) <= 1:
+                # first, *rest = VALUE / a, b = VALUE at module level: each name is the corresponding item (slice) of list(VALUE)
+                elts = st.targets[0].elts
+                n = len(elts)
+                star = [k for k, t_ in enumerate(elts) if isinstance(t_, ast.Starred)]
+                src = 'list(%s)' % ast.unparse(st.value)
+                for k, t_ in enumerate(elts):
+                    if isinstance(t_, ast.Starred):
+                        after = n - k - 1
+                        expr = '%s[%d:%s]' % (src, k, ('-%d' % after) if after else '')
+                        name = t_.value.id
+                    elif star and k > star[0]:
+                        expr, name = '%s[%d]' % (src, k - n), t_.id
+                    else:
+                        expr, name = '%s[%d]' % (src, k), t_.id
+                    node_ = ast.parse(expr, mode='eval').body
+                    for sub in ast.walk(node_):
+                        ast.copy_location(sub, st)
+                    mod.consts[name] = node_
+            elif isinstance(st, ast.Assign) and len(st.targets) > 1 and all(isinstance(t_, ast.Name) for t_ in st.targets):
+                for t_ in st.targets:                                       # A = B = value
+                    mod.consts[t_.id] = st.value
             elif isinstance(st, (ast.Import, ast.ImportFrom)):
                 mod.imports.append(st)
             elif isinstance(st, (ast.If, ast.Try)):
